@@ -33,17 +33,23 @@ pub(crate) fn parse_lazy_static(
         }
     }
     while parser.token.kind != token::Eof {
-        // Parse a `lazy_static!` item.
-        // FIXME: These `eat_*` calls should be converted to `parse_or` to avoid
-        // silently formatting malformed lazy-statics.
+        // Parse a `lazy_static!` item. Anything that is not of the form
+        // `<vis> static ref <ident>: <ty> = <expr>` is left to the generic macro formatting:
+        // the tokens that are only assumed to be there would otherwise be added to the output.
         let vis = parse_or!(parse_visibility, rustc_parse::parser::FollowedByType::No);
-        let _ = parser.eat_keyword(exp!(Static));
-        let _ = parser.eat_keyword(exp!(Ref));
+        if !parser.eat_keyword(exp!(Static)) || !parser.eat_keyword(exp!(Ref)) {
+            return None;
+        }
         let id = parse_or!(parse_ident);
-        let _ = parser.eat(exp!(Colon));
+        if !parser.eat(exp!(Colon)) {
+            return None;
+        }
         let ty = parse_or!(parse_ty);
-        let _ = parser.eat(exp!(Eq));
+        if !parser.eat(exp!(Eq)) {
+            return None;
+        }
         let expr = parse_or!(parse_expr);
+        // The `;` after the last item is added when it is missing.
         let _ = parser.eat(exp!(Semi));
         result.push((vis, id, ty, expr));
     }
